@@ -12,6 +12,10 @@ and runs it under the simulation executor.  Case lines
   1 start end shape op        shape 0 TS<Int>, 1 TSS<Int>, 2 TSD<Int,TS<Int>>;  op 0 if_then_else, 1 if_cmp,
                               3 if_then_else with the consumers INSIDE a nested graph (nested_<>): the dereferenced value
                                 crosses the boundary inwards; the nested graph evaluates all its nodes in its first cycle,
+                              5 as 3 but the REFERENCE itself crosses the boundary (Port<REF<S>>) and is dereferenced inside:
+                                target ticks reach the inner consumers through the child graph's own scheduling
+                                (graph.cpp nested_schedule_node_impl); every evaluation of the nested node also runs the
+                                active consumers inside (finding KF-C13-nested-ref-param-spurious-eval),
                               4 if_then_else INSIDE a nested graph whose dereferenced result is exported: ORACLE-ONLY
                                 (not mirrored by the model, see agree(); finding KF-C13-nested-export-lag)
   2 k t payload...            source k ticks at t.  k=0 selector (one integer: if_then_else true iff != 0;
@@ -167,7 +171,7 @@ def scenarios(shape, op):
 # ---------------------------------------------------------------- random generation
 def gen(rng, tier, prop):
     shape = rng.choice([0, 0, 1, 1, 2, 2])
-    op = rng.choice([0] * 11 + [1] * 4 + [3] * 4 + [4])
+    op = rng.choice([0] * 10 + [1] * 4 + [3] * 3 + [5] * 2 + [4])
     r = rng.random()
     if r < 0.12:
         sc = rng.choice(scenarios(shape, op))
@@ -244,7 +248,7 @@ def enumerate_cases(prop):
             if pat:
                 yield build_case(shape, 0, pat)
     for shape in (0, 1, 2):
-        for op in (0, 1, 3):
+        for op in (0, 1, 3, 5):
             for sc in scenarios(shape, op):
                 yield build_case(shape, op, sc)
                 yield build_case(shape, op, sc, start=2, gap=lambda i: 2)
@@ -265,14 +269,14 @@ def parse_case(case):
             op = l[4] if len(l) > 4 else 0
     if shape not in (1, 2):
         shape = 0
-    op = op if op in (1, 3, 4) else 0
+    op = op if op in (1, 3, 4, 5) else 0
     wired = {0, 1, 2, 7} | ({3} if op == 1 else set())
     script = {}
     for l in case:
         if l and l[0] == 2 and len(l) >= 4 and 0 <= l[1] < 8:
             if l[1] in wired and start <= l[2] < end:
                 script.setdefault(l[2], {})[l[1]] = l[3:]
-    if op == 3 and start < end:
+    if op in (3, 5) and start < end:
         script.setdefault(start, {})        # first cycle of the nested graph (the sources are scheduled on start)
     return start, end, shape, op, script
 
@@ -397,7 +401,7 @@ def _oracle(prop, case, out):
             cur = sel_of(op, ev[0][0])
         retarget = cur != prev_sel
         poke = 7 in ev
-        force = op == 3 and t == start      # the nested graph holding the consumers evaluates them all in its first cycle
+        force = op in (3, 5) and t == start      # the nested graph holding the consumers evaluates them all in its first cycle
         at = {cid: cons.get((cid, t)) for cid in (0, 1, 2, 3)}
         where = "t=%d (designated %s -> %s, ticked %s)" % (t, prev_sel, cur, sorted(ticked))
 
@@ -443,7 +447,12 @@ def _oracle(prop, case, out):
             else:
                 # ---- same_reference_no_tick / unselected_never_reaches: nothing may reach the consumers
                 for cid in (0, 3):
-                    if at[cid] is not None and not force:
+                    if at[cid] is not None and not force and op == 5 and poke:
+                        # KNOWN FINDING: a node inside a nested graph that takes the REFERENCE as a parameter is run
+                        # whenever the nested node is evaluated (here: by the unrelated poke input)
+                        fails.append(("nested_ref_param_spurious_eval",
+                                      "consumer %d (not connected to poke) evaluated by the poke of its nested node, %s" % (cid, where)))
+                    elif at[cid] is not None and not force:
                         kind = "unselected_leak" if ticked else ("spurious_ref_tick" if 0 in ev else "spurious_eval")
                         fails.append((kind, "consumer %d evaluated though neither its target ticked nor the reference changed, %s" % (cid, where)))
                 for cid in (0, 3):
@@ -516,7 +525,7 @@ PROP_KINDS = {
     "C13": {"deref_value", "deref_delta", "deref_lmt", "missed_wake", "retarget_no_eval", "retarget_not_modified", "retarget_delta",
             "keyed_diff", "keyed_diff_stale_removed", "spurious_ref_tick", "ref_tick_missing", "unselected_leak", "spurious_eval", "spurious_modified",
             "spurious_cycle", "passive_woken", "poke_missed", "evaluated_twice", "ran_not_valid", "direct_reader", "trace_shape",
-            "nested_export_lag", "nested_first_cycle"},
+            "nested_export_lag", "nested_first_cycle", "nested_ref_param_spurious_eval"},
 }
 
 
